@@ -7,7 +7,7 @@ namespace Fpdec.Kernels
 open Fpdec Fpdec.Model
 
 theorem div_floor_eq (prof : Profile) (x y : Int) : Gen.K.div_floor prof x y = divFloorI128 prof x y := by
-  unfold Gen.K.div_floor divFloorI128
+  unfold Gen.K.div_floor Gen.K.divmod divFloorI128
   cases divI128 x y with
   | panic k => rfl
   | ok q =>
@@ -22,7 +22,7 @@ theorem div_floor_eq (prof : Profile) (x y : Int) : Gen.K.div_floor prof x y = d
         simp [this, h]
 
 theorem div_ceil_eq (prof : Profile) (x y : Int) : Gen.K.div_ceil prof x y = divCeilI128 prof x y := by
-  unfold Gen.K.div_ceil divCeilI128
+  unfold Gen.K.div_ceil Gen.K.divmod divCeilI128
   cases divI128 x y with
   | panic k => rfl
   | ok q =>
